@@ -19,7 +19,8 @@ impl Tracker {
     }
     fn fresh(&mut self) -> String {
         self.next_fresh += 1;
-        format!("file{}", self.next_fresh)
+        // byte patterns that name handling may treat specially: a backslash, a trailing dot, upper/lower case
+        match self.next_fresh % 4 { 1 => format!("dir\\file{}", self.next_fresh), 2 => format!("File{}.", self.next_fresh), _ => format!("file{}", self.next_fresh) }
     }
     fn op(&mut self, sym: usize, rng: &mut Rng) -> Op {
         let data = |rng: &mut Rng, n: usize| rng.bytes(n, 3);
